@@ -16,6 +16,14 @@
 //!   this request) or that of a usage registered later (which has NOT been offered it yet and must not be any
 //!   more) - right after looking at the request or after its awaits (`late`), at every position of a released
 //!   batch. This is the window in which "is the usage still registered" can go stale inside ONE request.
+//! * requests that NO usage takes (rosters of looking usages only, or the taking usage ended before) get the
+//!   stack's default answer, and that answer can go wrong - at every position of a released list:
+//!   `fail_answer` = the transport refuses (io::Error) every send of a final answer to request idx, whoever answers
+//!   (the stack's 404, or the 200 of the taking usage); method index 7 = a re-INVITE, whose default 404 is
+//!   answered through an INVITE server transaction that waits for the peer's ACK: the peer ACKs it at once, or
+//!   never (`no_ack`; the transaction gives up after 64*T1 with an error). Whatever happens to the answer of one
+//!   request, the requests released together with it still have to be offered, in order - at once, or (un-ACKed
+//!   404: the stack handles a list one request after the other) when the server transaction has given up.
 //!
 //! Oracle
 //! * ordering: `refmodel::ref_reorder::Reorder` (an independent reorder buffer over u64) predicts for every
@@ -23,7 +31,12 @@
 //! * who is offered what: a roster walk written here from the statement (`plan`): a released request is
 //!   offered to the usages whose guard is alive at the moment it is their turn, in registration order, until
 //!   one takes it; what nobody takes gets the stack's default answer. Each usage's tape, the catch-all layer
-//!   behind the `DialogLayer` and the wire log are compared against that step by step.
+//!   behind the `DialogLayer` and the final answers the stack hands to the transport (sent or refused, recorded
+//!   by the world's transport wrapper `FaultyTp`, read with the independent wire reader) are compared against
+//!   that step by step. The requests of a list that follow a re-INVITE nobody took whose 404 is never ACKed
+//!   are expected in the late step (after the script, when 64*T1 have passed), all others in the step of the
+//!   arrival that released them. A request that is never offered although it was released together with a lower
+//!   request whose default answer failed is `c10.order/not-offered-after-failed-default-answer`.
 //! * guard: independent of the walk - every entry into `Usage::receive` and every guard drop gets a number
 //!   from one counter; an entry of usage u numbered after the drop of u's guard is `c10.guard/shown-after-drop`.
 //!
@@ -32,7 +45,12 @@
 //! took the request (not generated); the offer order among usages beyond "registration order" (assumption,
 //! no usage is re-registered after a drop, so the slot order of the usage table is the registration order);
 //! interleaving of overlapping deliveries with in-receive drops (scripts with `acts` have no back-to-back
-//! arrivals).
+//! arrivals); HOW LONG the rest of a released list waits behind an un-ACKed default 404 (only that it is offered,
+//! once, in order, by the time the server transaction has given up; the backlog itself must be empty at once);
+//! a list released while another one is stuck behind an un-ACKed 404 (overlapping deliveries: not generated);
+//! copies of a re-INVITE or of a request whose answer was refused (not generated: at most one arrival each, their
+//! server transaction is gone so a copy is a new request the statement is silent about); the content of the
+//! default answers.
 
 use crate::engine::*;
 use crate::refmodel::ref_reorder::{Arrival, Reorder};
@@ -40,7 +58,7 @@ use crate::world::*;
 use parking_lot::Mutex;
 use proptest::prelude::*;
 use serde::{Deserialize, Serialize};
-use sip_core::transport::TargetTransportInfo;
+use sip_core::transport::{Direction, TargetTransportInfo, TpHandle, Transport};
 use sip_core::{Endpoint, IncomingRequest, Layer, MayTake};
 use sip_types::header::typed::Contact;
 use sip_types::uri::sip::SipUri;
@@ -137,11 +155,30 @@ pub struct Case {
     /// how often an only-looking usage yields to the scheduler inside `receive` (scripts without Join only)
     #[serde(default)]
     pub looker_yields: u8,
+    /// requests (idx) whose final answer the transport refuses to send: every `Transport::send` of a final
+    /// response to request idx fails with an io::Error, whoever answers - the taking usage (200) or the stack's
+    /// default handling of a request nobody took (404). Such a request arrives at most once.
+    #[serde(default)]
+    pub fail_answer: Vec<u8>,
+    /// what the peer does with a 3xx-6xx answer to a re-INVITE (method index 7): false = ACKs it at once (inside
+    /// the same step), true = never ACKs it (the INVITE server transaction gives up after 64*T1)
+    #[serde(default)]
+    pub no_ack: bool,
     pub events: Vec<Ev>,
     pub rng: u8,
 }
 
 const METHODS: &[&str] = &["INFO", "UPDATE", "MESSAGE", "BYE", "OPTIONS", "NOTIFY", "REFER"];
+/// method index of a re-INVITE (only for in-dialog requests; near-miss requests keep to METHODS)
+const M_INVITE: u8 = 7;
+
+fn method_name(m: u8) -> &'static str {
+    if m == M_INVITE {
+        "INVITE"
+    } else {
+        METHODS[m as usize]
+    }
+}
 
 impl Case {
     fn n(&self) -> usize {
@@ -181,6 +218,31 @@ impl Case {
     fn has_join(&self) -> bool {
         self.events.iter().any(|e| *e == Ev::Join)
     }
+    fn is_invite(&self, idx: u8) -> bool {
+        self.methods.get(idx as usize) == Some(&M_INVITE)
+    }
+    fn invites(&self) -> usize {
+        self.methods.iter().filter(|m| **m == M_INVITE).count()
+    }
+    fn idx_of(&self, cseq: u64) -> u8 {
+        (cseq - self.k as u64 - 1) as u8
+    }
+    /// requests that must not arrive more than once: re-INVITEs (a copy that arrives after the INVITE server
+    /// transaction has ended is a new request) and requests whose answer cannot be sent (their server
+    /// transaction ends with the failed send, a retransmission would not be absorbed)
+    fn special(&self) -> Vec<u8> {
+        (0..self.n() as u8).filter(|i| self.is_invite(*i) || self.fail_answer.contains(i)).collect()
+    }
+    /// the stack's default handling of request `cseq` (when no usage takes it) ends with an error
+    fn default_answer_errs(&self, cseq: u64) -> bool {
+        let idx = self.idx_of(cseq);
+        self.fail_answer.contains(&idx) || (self.is_invite(idx) && self.no_ack)
+    }
+    /// the stack's default handling of request `cseq` stays pending until the INVITE server transaction gives up
+    fn default_answer_blocks(&self, cseq: u64) -> bool {
+        let idx = self.idx_of(cseq);
+        self.is_invite(idx) && self.no_ack && !self.fail_answer.contains(&idx)
+    }
     /// requests an in-receive drop may be tied to: they arrive exactly once, and the reference model does not
     /// classify them as "not above the last number handed on" (whether those are offered at all is not asserted,
     /// so whether the drop happens would not be defined)
@@ -213,7 +275,18 @@ impl Case {
         let acts = self.all_acts();
         n <= 7
             && self.k as u64 + n as u64 <= u32::MAX as u64
-            && self.methods.iter().all(|m| (*m as usize) < METHODS.len())
+            && self.methods.iter().all(|m| (*m as usize) <= METHODS.len())
+            && self.fail_answer.iter().all(|i| (*i as usize) < n)
+            && (!self.no_ack || self.invites() > 0)
+            && {
+                // re-INVITEs / unsendable answers: at most one arrival each, no back-to-back arrivals, the script
+                // stays far below 64*T1, and nothing is released while an un-ACKed default 404 is pending
+                let special = self.special();
+                special.is_empty()
+                    || (!self.has_join()
+                        && special.iter().all(|s| self.events.iter().filter(|e| matches!(e, Ev::Req { idx, .. } if idx == s)).count() <= 1)
+                        && self.events.iter().map(|e| if let Ev::Wait { ms } = e { *ms as u64 } else { 0 }).sum::<u64>() < 20_000)
+            }
             && (1..=3).contains(&m)
             && (self.roster.is_empty() || !self.observer)
             && usages[..m - 1].iter().all(|t| !*t)
@@ -242,6 +315,7 @@ impl Case {
                         && self.events[i - 1].is_arrival()
                         && self.events[i + 1].is_arrival())
             })
+            && (!self.no_ack || !plan(self).overlap_blocked)
     }
 }
 
@@ -313,6 +387,8 @@ fn perm_case(role: Role, k: u32, perm: &[u8], ordinal: usize) -> Case {
         roster: vec![],
         acts: vec![],
         looker_yields: 0,
+        fail_answer: vec![],
+        no_ack: false,
         events,
         rng: (ordinal % 251) as u8,
     }
@@ -344,6 +420,8 @@ pub fn perm_cases(tier: Tier) -> Vec<Case> {
         roster: vec![],
         acts: vec![],
         looker_yields: 0,
+        fail_answer: vec![],
+        no_ack: false,
         events: vec![Ev::Ack { id: 0 }, Ev::Near { kind: Near::ToTag, idx: 0, id: 0 }],
         rng: 0,
     });
@@ -474,6 +552,56 @@ pub fn usage_drop_cases(tier: Tier) -> Vec<Case> {
     out
 }
 
+/// Requests that no usage takes, at every position of a released list, whose default answer (the stack's 404)
+/// succeeds late or not at all:
+/// every permutation of n = 2..3 (thorough 4) requests x both roles x who is left to be offered the requests
+/// {one looking usage, two looking usages, nobody (the only, taking usage was ended before), one looking usage (the
+/// taking usage registered behind it was ended before)} x every request j x what goes wrong with its answer
+/// {the transport refuses to send it, j is a re-INVITE whose 404 the peer never ACKs, j is a re-INVITE whose 404
+/// is ACKed at once, j is a re-INVITE and the transport refuses the 404}.
+/// (Arrival orders in which a list would be released while an earlier one is still stuck behind an un-ACKed answer
+/// are left out, see `valid`.)
+pub fn unwanted_cases(tier: Tier) -> Vec<Case> {
+    let mut out = vec![];
+    for role in [Role::Uas, Role::Uac] {
+        let k = if role == Role::Uas { 1 } else { 0 };
+        let off = if role == Role::Uas { 1 } else { 0 };
+        for n in 2..=tier.pick(3, 4) {
+            for (pi, p) in permutations(n).iter().enumerate() {
+                for left in 0..4 {
+                    let mut base = perm_case(role, k, p, pi + left);
+                    base.observer = false;
+                    match left {
+                        0 => base.roster = vec![false],
+                        1 => base.roster = vec![false, false],
+                        2 => base.events.insert(off, Ev::DropGuard),
+                        _ => {
+                            base.roster = vec![false, true];
+                            base.events.insert(off, Ev::DropGuardOf { usage: 1 });
+                        }
+                    }
+                    for j in 0..n as u8 {
+                        for mode in 0..4 {
+                            let mut c = base.clone();
+                            if mode != 0 {
+                                c.methods[j as usize] = M_INVITE;
+                            }
+                            if mode == 0 || mode == 3 {
+                                c.fail_answer = vec![j];
+                            }
+                            c.no_ack = mode == 1;
+                            if c.valid() {
+                                out.push(c);
+                            }
+                        }
+                    }
+                }
+            }
+        }
+    }
+    out
+}
+
 #[derive(Debug, Clone)]
 struct IdxSpec {
     copies: u8,
@@ -499,14 +627,34 @@ pub fn strategy() -> BoxedStrategy<Case> {
             prop::collection::vec((any::<u16>(), 0u8..3, 0u8..3, any::<bool>()), 2),
             0u8..6,
             0u8..3,
+            // re-INVITEs and refused answers: (re-INVITE selector, which request, refusal selector, which requests,
+            // peer never ACKs, roster override selector)
+            (0u8..8, any::<u16>(), 0u8..8, any::<[u16; 2]>(), any::<bool>(), 0u8..4),
         ),
         any::<u8>(),
     )
         .prop_map(
             |(uas, (start_sel, rnd, small), n, methods, observer, specs, extras, drop, ack0, (ysel, joins), usage_sel, rng)| {
-                let (act_sel, roster_sel, act_specs, looker_ysel, ext_usage) = usage_sel;
+                let (act_sel, roster_sel, act_specs, looker_ysel, ext_usage, unwanted) = usage_sel;
+                let (inv_sel, inv_key, refuse_sel, refuse_keys, no_ack, only_lookers) = unwanted;
+                // one case in four has a re-INVITE among its requests, one in four an answer the transport refuses
+                let with_invite = inv_sel >= 6;
+                let refused = match refuse_sel {
+                    0..=5 => 0usize,
+                    6 => 1,
+                    _ => 2,
+                };
                 // half of the cases keep the legacy roster ([observer?], taker)
                 let roster: Vec<bool> = match roster_sel {
+                    // (a request that nobody takes needs a roster without a taking usage - or an ended one: three
+                    // in four of the cases with a re-INVITE / a refused answer get such a roster)
+                    _ if (with_invite || refused > 0) && only_lookers != 0 => {
+                        if roster_sel % 2 == 0 {
+                            vec![false]
+                        } else {
+                            vec![false, false]
+                        }
+                    }
                     0..=5 => vec![],
                     6 | 7 => vec![false, false],
                     8 | 9 => vec![false, false, true],
@@ -616,6 +764,8 @@ pub fn strategy() -> BoxedStrategy<Case> {
                     roster,
                     acts: vec![],
                     looker_yields: 0,
+                    fail_answer: vec![],
+                    no_ack: false,
                     events,
                     rng,
                 };
@@ -633,6 +783,33 @@ pub fn strategy() -> BoxedStrategy<Case> {
                             });
                         }
                         case.events.retain(|e| *e != Ev::Join);
+                    }
+                }
+                if with_invite {
+                    case.methods[pick_idx(inv_key, n)] = M_INVITE;
+                    case.no_ack = no_ack;
+                }
+                for key in refuse_keys.iter().take(refused) {
+                    let idx = pick_idx(*key, n) as u8;
+                    if !case.fail_answer.contains(&idx) {
+                        case.fail_answer.push(idx);
+                    }
+                }
+                let special = case.special();
+                if !special.is_empty() {
+                    // such a request arrives at most once (only its first copy is kept); no back-to-back arrivals
+                    let mut seen: BTreeSet<u8> = BTreeSet::new();
+                    case.events.retain(|e| match e {
+                        Ev::Req { idx, .. } if special.contains(idx) => seen.insert(*idx),
+                        Ev::Join => false,
+                        _ => true,
+                    });
+                    // an in-receive drop stays tied to a request that the model hands on
+                    let cand = case.act_candidates();
+                    case.acts.retain(|a| cand.contains(&a.on));
+                    // nothing is released while a list is stuck behind an un-ACKed answer: else the peer ACKs
+                    if case.no_ack && plan(&case).overlap_blocked {
+                        case.no_ack = false;
                     }
                 }
                 if !case.has_join() {
@@ -771,10 +948,16 @@ impl Usage for ScriptedUsage {
         for (t, _) in mine.iter().filter(|(_, late)| *late) {
             self.ctl.drop_guard(*t);
         }
-        if matches!(req.line.method, Method::ACK | Method::INVITE) {
-            return; // (INVITE is never generated; an ACK is consumed)
+        if req.line.method == Method::ACK {
+            return; // an ACK is consumed
         }
         let response = endpoint.create_response(&req, Code::OK, None);
+        if req.line.method == Method::INVITE {
+            // a re-INVITE is accepted (the peer's ACK for the 2xx is not part of the script)
+            let tsx = endpoint.create_server_inv_tsx(&mut req);
+            let _ = tsx.respond_success(response).await;
+            return;
+        }
         let tsx = endpoint.create_server_tsx(&mut req);
         let _ = tsx.respond(response).await;
     }
@@ -815,6 +998,77 @@ pub struct WireRec {
     pub status: u16,
     pub marker: String,
     pub cseq: u32,
+    /// method of the CSeq header
+    pub method: String,
+    /// the transport refused to send it (nothing reached the wire)
+    pub failed: bool,
+}
+
+/// The world's datagram transport with a send-fault plan: every final response (>= 200) whose top Via branch
+/// belongs to a request listed in `fail_prefixes` is refused with an io::Error. Every attempt to send a final
+/// response (refused or not, retransmissions included) is recorded in the order of the calls, read with the
+/// independent wire reader.
+struct FaultyTp {
+    inner: TpHandle,
+    fail_prefixes: Vec<String>,
+    step: Arc<AtomicUsize>,
+    attempts: Arc<Mutex<Vec<WireRec>>>,
+}
+
+impl std::fmt::Debug for FaultyTp {
+    fn fmt(&self, f: &mut std::fmt::Formatter<'_>) -> std::fmt::Result {
+        write!(f, "FaultyTp({:?})", self.inner)
+    }
+}
+impl std::fmt::Display for FaultyTp {
+    fn fmt(&self, f: &mut std::fmt::Formatter<'_>) -> std::fmt::Result {
+        write!(f, "{}", &*self.inner)
+    }
+}
+
+#[async_trait::async_trait]
+impl Transport for FaultyTp {
+    fn name(&self) -> &'static str {
+        self.inner.name()
+    }
+    fn secure(&self) -> bool {
+        self.inner.secure()
+    }
+    fn reliable(&self) -> bool {
+        self.inner.reliable()
+    }
+    fn bound(&self) -> SocketAddr {
+        self.inner.bound()
+    }
+    fn sent_by(&self) -> SocketAddr {
+        self.inner.sent_by()
+    }
+    fn direction(&self) -> Direction {
+        self.inner.direction()
+    }
+    async fn send(&self, message: &[u8], target: SocketAddr) -> std::io::Result<()> {
+        let mut refuse = false;
+        if let Some(m) = WireMsg::parse(message) {
+            if let (Some(status), Some(branch)) = (m.status(), m.via_branch()) {
+                if let (true, Some(marker)) = (status >= 200, branch.strip_prefix(BRANCH_PREFIX)) {
+                    refuse = self.fail_prefixes.iter().any(|p| marker.starts_with(p.as_str()));
+                    let (cseq, method) = m.cseq().unwrap_or((0, String::new()));
+                    self.attempts.lock().push(WireRec {
+                        step: self.step.load(Ordering::Relaxed),
+                        status,
+                        marker: marker.to_string(),
+                        cseq,
+                        method,
+                        failed: refuse,
+                    });
+                }
+            }
+        }
+        if refuse {
+            return Err(std::io::Error::new(std::io::ErrorKind::ConnectionRefused, "c10: transport refuses this answer"));
+        }
+        self.inner.send(message, target).await
+    }
 }
 
 #[derive(Debug, Default)]
@@ -825,8 +1079,11 @@ pub struct Observed {
     /// (usage, sequence number) of every guard drop of the script (application side or inside `receive`)
     pub drops: Vec<(usize, usize)>,
     pub catchall: Vec<Rec>,
-    /// first transmission of every final response ezk sent, by the step it was sent in
+    /// first attempt to send each final response (by the step of the attempt; `failed` = the transport
+    /// refused it and nothing reached the wire)
     pub finals: Vec<WireRec>,
+    /// markers of the re-INVITEs whose 3xx-6xx answer the peer has ACKed
+    pub acked: Vec<String>,
     pub backlog_end: usize,
     /// (event index, registered usages right after it) for every application-side guard drop
     pub usage_counts: Vec<(usize, usize)>,
@@ -887,8 +1144,15 @@ pub fn run(case: &Case) -> Observed {
     run_world(case.rng as u64, |clock| async move {
         let mut obs = Observed::default();
         let log = WireLog::new(clock);
-        let (tp, _) = mock_datagram(&log, "UDP", false, false, "10.0.0.1:5060");
+        let (plain_tp, _) = mock_datagram(&log, "UDP", false, false, "10.0.0.1:5060");
         let step = Arc::new(AtomicUsize::new(0));
+        let attempts: Arc<Mutex<Vec<WireRec>>> = Default::default();
+        let tp = TpHandle::new(FaultyTp {
+            inner: plain_tp,
+            fail_prefixes: case.fail_answer.iter().map(|i| format!("r{i}g")).collect(),
+            step: step.clone(),
+            attempts: attempts.clone(),
+        });
         let seq = Arc::new(AtomicUsize::new(0));
         let usages = case.usages();
         let tapes: Vec<Tape> = usages.iter().map(|_| Tape::new(clock, &step, &seq)).collect();
@@ -1063,12 +1327,11 @@ pub fn run(case: &Case) -> Observed {
         settle().await;
 
         // ---- the script
-        let mut wire_marks = vec![log.len()];
         for (i, ev) in case.events.iter().enumerate() {
             step.store(i + 1, Ordering::Relaxed);
             match ev {
                 Ev::Req { idx, gen } => {
-                    let m = METHODS[case.methods[*idx as usize] as usize];
+                    let m = method_name(case.methods[*idx as usize]);
                     let bytes = peer_request(&case, &ids, m, case.cseq_of(*idx) as u32, &req_marker(*idx, *gen), None);
                     inject(&endpoint, &tp, peer, &bytes);
                 }
@@ -1100,41 +1363,54 @@ pub fn run(case: &Case) -> Observed {
             if !joined {
                 settle().await;
                 settle().await;
+                // the peer ACKs every 3xx-6xx answer to a re-INVITE as soon as it sees it (unless it never does)
+                while !case.no_ack {
+                    let todo: Vec<WireRec> = attempts
+                        .lock()
+                        .iter()
+                        .filter(|w| !w.failed && w.status >= 300 && w.method == "INVITE" && w.marker.starts_with('r') && !obs.acked.contains(&w.marker))
+                        .cloned()
+                        .collect();
+                    let Some(w) = todo.first() else { break };
+                    obs.acked.push(w.marker.clone());
+                    let ack = request_text(
+                        "ACK",
+                        "sip:ezk@10.0.0.1:5060",
+                        &[format!("SIP/2.0/UDP {PEER};branch={BRANCH_PREFIX}{}", w.marker)],
+                        &format!("<sip:peer@192.0.2.9:5060>;tag={PEER_TAG}"),
+                        &format!("<sip:ezk@10.0.0.1:5060>;tag={}", ids.local_tag),
+                        &ids.call_id,
+                        w.cseq,
+                        "ACK",
+                        &[format!("X-Seq: t{}", w.marker)],
+                        b"",
+                    );
+                    inject(&endpoint, &tp, peer, &ack);
+                    settle().await;
+                    settle().await;
+                }
             }
-            wire_marks.push(log.len());
         }
         obs.backlog_end = endpoint[dkey].verif_counts().1;
         obs.usages_end = endpoint[dkey].verif_counts().2;
         // ---- late step: let every transaction run out; nothing may be delivered any more
         obs.late_step = case.events.len() + 1;
         step.store(obs.late_step, Ordering::Relaxed);
-        clock.advance(33_000).await;
+        // (a re-INVITE whose default 404 is never ACKed keeps its server transaction for 64*T1, checked on the
+        // retransmission raster: 35.5 s)
+        clock.advance(33_000 + if case.no_ack { 36_000 * case.invites() as u64 } else { 0 }).await;
         settle().await;
-        wire_marks.push(log.len());
+        settle().await;
 
         obs.views = tapes.iter().map(|t| t.snapshot()).collect();
         obs.drops = ctl.drops.lock().clone();
         obs.catchall = catch_tape.snapshot();
         let mut answered: HashSet<String> = HashSet::new();
-        for (i, (_, m)) in log.parsed().into_iter().enumerate() {
-            let Some(m) = m else { continue };
-            let Some(status) = m.status() else { continue };
-            if status < 200 {
-                continue;
+        for w in attempts.lock().iter() {
+            if answered.insert(w.marker.clone()) {
+                // (further attempts are retransmitted responses)
+                obs.finals.push(w.clone());
             }
-            let Some(branch) = m.via_branch() else { continue };
-            let Some(marker) = branch.strip_prefix(BRANCH_PREFIX) else { continue };
-            if !answered.insert(marker.to_string()) {
-                continue; // a retransmitted response
-            }
-            // step = number of marks at or below i, minus one (mark[0] = end of setup)
-            let st = wire_marks.iter().filter(|mk| **mk <= i).count();
-            obs.finals.push(WireRec {
-                step: st,
-                status,
-                marker: marker.to_string(),
-                cseq: m.cseq().map(|c| c.0).unwrap_or(0),
-            });
         }
         // (taken out first: dropping a guard locks the dialog table, never while `guards` is locked)
         let guards: Vec<Option<UsageGuard>> = std::mem::take(&mut *ctl.guards.lock());
@@ -1182,6 +1458,14 @@ struct Expect {
     taker_gone: bool,
     /// in-receive drops that the walk performs in this group: (actor, target, position in `release`, late)
     fired: Vec<(usize, usize, usize, bool)>,
+    /// per position of `release`: an earlier request of the same released list was taken by no usage and the
+    /// stack's default answer to it ended with an error (send refused, or re-INVITE answer never ACKed)
+    after_err: Vec<bool>,
+    /// the group of the late step (the requests of a list that was stuck behind an un-ACKed default answer)
+    late: bool,
+    /// how many requests of the last released list of this group are stuck behind its last request (a re-INVITE
+    /// nobody took whose default answer is never ACKed): they follow in the late group
+    deferred: usize,
 }
 
 impl Expect {
@@ -1190,6 +1474,7 @@ impl Expect {
         let mut xx = self.clone();
         xx.release = keep.iter().map(|p| self.release[*p]).collect();
         xx.arriving = self.arriving.iter().filter_map(|a| keep.iter().position(|p| p == a)).collect();
+        xx.after_err = keep.iter().map(|p| self.after_err.get(*p).copied().unwrap_or(false)).collect();
         xx.ack = acks;
         xx
     }
@@ -1206,6 +1491,34 @@ struct Plan {
     /// registered usages after each event / when the script has ended
     live_after: Vec<usize>,
     live_end: usize,
+    /// a list is released while an earlier one is still stuck behind an un-ACKed default answer to a re-INVITE
+    /// (the two deliveries would overlap: not generated)
+    overlap_blocked: bool,
+}
+
+/// the roster walk for one released request: it is offered to the usages whose guard is alive when it is their
+/// turn, in registration order, until one takes it. Returns whether a usage took it.
+fn offer(case: &Case, usages: &[bool], acts: &[Act], live: &mut [bool], x: &mut Expect, c: u64, after_err: bool) -> bool {
+    let pos = x.release.len();
+    x.release.push(c);
+    x.after_err.push(after_err);
+    for u in 0..usages.len() {
+        if !live[u] {
+            continue;
+        }
+        x.offered[u].push(pos);
+        for a in acts.iter().filter(|a| a.actor as usize == u && case.cseq_of(a.on) == c) {
+            if live[a.target as usize] {
+                live[a.target as usize] = false;
+                x.fired.push((u, a.target as usize, pos, a.late));
+            }
+        }
+        if usages[u] {
+            return true;
+        }
+    }
+    x.unclaimed.push(pos);
+    false
 }
 
 fn plan(case: &Case) -> Plan {
@@ -1237,7 +1550,10 @@ fn plan(case: &Case) -> Plan {
         near: false,
         live_after: vec![],
         live_end: m,
+        overlap_blocked: false,
     };
+    // the rest of a released list that is stuck behind the default answer to a re-INVITE the peer never ACKs
+    let mut stuck: Option<Vec<u64>> = None;
     let mut cur: Option<Expect> = None;
     for (i, e) in case.events.iter().enumerate() {
         let continues = *e == Ev::Join || (i > 0 && case.events[i - 1] == Ev::Join);
@@ -1265,30 +1581,25 @@ fn plan(case: &Case) -> Plan {
                     match model.arrive(c) {
                         Arrival::Released(list) => {
                             x.arriving.push(x.release.len());
-                            // roster walk: each released request, in order, goes to the usages whose guard is
-                            // alive when it is their turn, in registration order, until one takes it
-                            for c in list {
-                                let pos = x.release.len();
-                                x.release.push(c);
-                                let mut taken = false;
-                                for u in 0..m {
-                                    if !live[u] {
-                                        continue;
-                                    }
-                                    x.offered[u].push(pos);
-                                    for a in acts.iter().filter(|a| a.actor as usize == u && case.cseq_of(a.on) == c) {
-                                        if live[a.target as usize] {
-                                            live[a.target as usize] = false;
-                                            x.fired.push((u, a.target as usize, pos, a.late));
-                                        }
-                                    }
-                                    if usages[u] {
-                                        taken = true;
-                                        break;
-                                    }
+                            // roster walk (`offer`) for each released request, in order. What no usage takes gets
+                            // the stack's default answer; the next request of the list follows when that is done:
+                            // at once, or - re-INVITE whose 404 the peer never ACKs - when the INVITE server
+                            // transaction has given up (the late step).
+                            if stuck.as_ref().map_or(false, |rest| !rest.is_empty()) {
+                                p.overlap_blocked = true;
+                            }
+                            let mut after_err = false;
+                            let mut list = list.into_iter();
+                            while let Some(c) = list.next() {
+                                let taken = offer(case, &usages, &acts, &mut live, x, c, after_err);
+                                if !taken && case.default_answer_errs(c) {
+                                    after_err = true;
                                 }
-                                if !taken {
-                                    x.unclaimed.push(pos);
+                                if !taken && case.default_answer_blocks(c) {
+                                    let rest: Vec<u64> = list.collect();
+                                    x.deferred = rest.len();
+                                    stuck = Some(rest);
+                                    break;
                                 }
                             }
                         }
@@ -1337,6 +1648,25 @@ fn plan(case: &Case) -> Plan {
     p.live_end = live.iter().filter(|l| **l).count();
     if let Some(g) = cur.take() {
         p.groups.push(g);
+    }
+    if let Some(rest) = stuck.filter(|r| !r.is_empty()) {
+        // the late step: the server transaction of the un-ACKed answer gives up, the rest of the list follows
+        let n = case.events.len();
+        let mut x = Expect {
+            first: n,
+            last: n,
+            usage_yields: case.usage_yields,
+            live_at_start: live.clone(),
+            offered: vec![vec![]; m],
+            ack_for: vec![vec![]; m],
+            late: true,
+            ..Default::default()
+        };
+        for c in rest {
+            offer(case, &usages, &acts, &mut live, &mut x, c, true);
+        }
+        x.taker_gone = !(0..m).any(|u| live[u] && usages[u]);
+        p.groups.push(x);
     }
     p.gap_at_end = !model.held.is_empty();
     p.inversion = first_arrivals.windows(2).any(|w| w[0] > w[1]);
@@ -1432,7 +1762,12 @@ fn match_view(
         .enumerate()
         .find(|(_, c)| if multi.contains(c) { !multi_shown.contains(c) } else { !singles[..next_single].contains(c) });
     if let Some((i, c)) = missing {
-        return Some(if x.arriving.contains(&i) {
+        return Some(if x.after_err.get(i) == Some(&true) {
+            (
+                "order/not-offered-after-failed-default-answer",
+                describe(format!("CSeq {c} was released together with a lower request that no usage took and whose default answer could not be completed (send refused / never ACKed), and was never offered")),
+            )
+        } else if x.arriving.contains(&i) {
             ("order/in-order-not-shown", describe(format!("CSeq {c} is the next expected number but was not shown in the step it arrived")))
         } else {
             ("order/held-not-released", describe(format!("CSeq {c} was held and the gap was filled, but it was not released in that step")))
@@ -1507,7 +1842,7 @@ pub fn check(case: &Case, out: &mut CaseOut) {
 
     for x in pl.groups.iter() {
         let (lo, hi) = (x.first + 1, x.last + 1);
-        let evs = &case.events[x.first..=x.last];
+        let evs: &[Ev] = if x.late { &[] } else { &case.events[x.first..=x.last] };
         let seen: Vec<Vec<(u64, String)>> = obs.views.iter().map(|v| in_steps(v, lo, hi)).collect();
         let catchall = in_steps(&obs.catchall, lo, hi);
         max_release = max_release.max(x.release.len());
@@ -1585,7 +1920,7 @@ pub fn check(case: &Case, out: &mut CaseOut) {
         if x.taker_gone {
             // what no usage takes is observed through the stack's default answers (an ACK is never answered)
             default_404 += obs.finals.iter().filter(|w| w.step >= lo && w.step <= hi && w.marker.starts_with('r') && w.status == 404).count();
-            views.push(("default answers on the wire".to_string(), &defaults, x.restricted(&x.unclaimed, vec![]), &mut seen_default));
+            views.push(("default answers of the stack (sent, or refused by the transport)".to_string(), &defaults, x.restricted(&x.unclaimed, vec![]), &mut seen_default));
         }
         for (name, seen, xx, before) in views {
             if let Some((locus, msg)) = match_view(seen, &xx, &pl.multi, before) {
@@ -1606,10 +1941,13 @@ pub fn check(case: &Case, out: &mut CaseOut) {
 
     // -- late step and end state
     let late = obs.late_step;
+    // (with a list stuck behind an un-ACKed default answer the usages' late step is a group of the plan, above)
+    let has_late_group = pl.groups.iter().any(|x| x.late);
     let late_seen: Vec<String> = obs
         .views
         .iter()
         .flatten()
+        .filter(|_| !has_late_group)
         .chain(obs.catchall.iter())
         .filter(|r| r.step >= late)
         .map(|r| r.marker.clone())
@@ -1682,6 +2020,40 @@ pub fn check(case: &Case, out: &mut CaseOut) {
     if case.looker_yields > 0 {
         out.class("looking-usage-yields");
     }
+    // requests nobody takes, and default answers that cannot be completed
+    let mut err_inside_list = false;
+    for x in pl.groups.iter() {
+        for pos in &x.unclaimed {
+            let c = x.release[*pos];
+            let idx = case.idx_of(c);
+            let inside = pos + 1 < x.release.len() || x.deferred > 0;
+            if inside {
+                out.class("unclaimed-request-inside-a-release-list(held requests follow)");
+            }
+            if case.fail_answer.contains(&idx) {
+                out.class(if inside { "default-answer-send-refused: held requests follow in the list" } else { "default-answer-send-refused: last/only request of the list" });
+            } else if case.is_invite(idx) {
+                out.class(match (case.no_ack, inside) {
+                    (true, true) => "re-invite-default-404-never-acked: held requests follow in the list (late step)",
+                    (true, false) => "re-invite-default-404-never-acked: last/only request of the list",
+                    (false, true) => "re-invite-default-404-acked: held requests follow in the list",
+                    (false, false) => "re-invite-default-404-acked: last/only request of the list",
+                });
+            }
+            if inside && case.default_answer_errs(c) {
+                err_inside_list = true;
+            }
+        }
+    }
+    if case.invites() > 0 {
+        out.class("re-invite-in-dialog");
+    }
+    if obs.finals.iter().any(|w| w.failed && (200..300).contains(&w.status)) {
+        out.class("answer-of-the-taking-usage-send-refused");
+    }
+    if !case.fail_answer.is_empty() && !obs.finals.iter().any(|w| w.failed) {
+        out.class("send-refusal-scripted-but-never-due");
+    }
     if overlap_release {
         out.class("back-to-back-arrivals-with-release-and-yielding-usage");
     }
@@ -1738,7 +2110,7 @@ pub fn check(case: &Case, out: &mut CaseOut) {
         obs.finals.iter().map(|w| format!("{}:{}={}", w.step, w.marker, w.status)).collect::<Vec<_>>(),
         obs.backlog_end
     ));
-    if pl.inversion || pl.duplicate || pl.near || !fired.is_empty() {
+    if pl.inversion || pl.duplicate || pl.near || !fired.is_empty() || err_inside_list {
         out.nontrivial(case);
     }
 }
@@ -1747,25 +2119,29 @@ pub fn property() -> Property {
     Property {
         fuzz: vec![],
         id: "C10",
-        rule: "case = role (UAS: dialog from a peer INVITE via Dialog::new_server; UAC: ClientDialogBuilder + real INVITE client transaction answered 200 by the peer) x start CSeq x n<=7 in-dialog requests with consecutive CSeq k+1..k+n (methods INFO/UPDATE/MESSAGE/BYE/OPTIONS/NOTIFY/REFER, tags and Call-ID as the peer derives them, unique X-Seq marker and branch per copy) in an arrival order, with retransmissions (same branch), re-sent copies (new branch), near-miss requests (Call-ID / From-tag / To-tag differing, no To-tag, no From-tag, tags swapped), ACKs with the INVITE's CSeq, a drop of one usage's guard by the application between two events, short waits and back-to-back arrivals (no scheduling point in between) interleaved; x roster of 1..3 usages in registration order (0..3 that only look, at most one that takes and answers, registered last) x guard drops INSIDE Usage::receive (usage `actor`, while it handles request `on`, drops the guard of usage `target` = itself / an earlier / a later usage, right after looking or after its awaits); the usages yield 0..3 times inside receive. Non-trivial = the first arrivals are not in CSeq order (>=1 inversion), or a CSeq arrives more than once, or a near-miss request is present, or a guard is dropped inside receive; distinct by hash of the case.",
+        rule: "case = role (UAS: dialog from a peer INVITE via Dialog::new_server; UAC: ClientDialogBuilder + real INVITE client transaction answered 200 by the peer) x start CSeq x n<=7 in-dialog requests with consecutive CSeq k+1..k+n (methods INFO/UPDATE/MESSAGE/BYE/OPTIONS/NOTIFY/REFER, tags and Call-ID as the peer derives them, unique X-Seq marker and branch per copy) in an arrival order, with retransmissions (same branch), re-sent copies (new branch), near-miss requests (Call-ID / From-tag / To-tag differing, no To-tag, no From-tag, tags swapped), ACKs with the INVITE's CSeq, a drop of one usage's guard by the application between two events, short waits and back-to-back arrivals (no scheduling point in between) interleaved; x roster of 1..3 usages in registration order (0..3 that only look, at most one that takes and answers, registered last) x guard drops INSIDE Usage::receive (usage `actor`, while it handles request `on`, drops the guard of usage `target` = itself / an earlier / a later usage, right after looking or after its awaits); the usages yield 0..3 times inside receive; x answers that go wrong: the transport refuses every send of a final answer to the requests in `fail_answer` (the stack's default 404 for a request nobody took, or the taking usage's 200), a request may be a re-INVITE (method 8 of 8) whose default 404 the peer ACKs at once or never (`no_ack`, INVITE server transaction gives up after 64*T1); such requests arrive at most once, in scripts without back-to-back arrivals. Non-trivial = the first arrivals are not in CSeq order (>=1 inversion), or a CSeq arrives more than once, or a near-miss request is present, or a guard is dropped inside receive, or a request nobody takes whose default answer fails is followed by held requests in its released list; distinct by hash of the case.",
         assumptions: vec![
             "requests with a CSeq not above the last one handed on (re-sent copies, UAC-role numbers below the first arrival) are not asserted either way; they are counted as class lower-cseq",
             "a CSeq that arrives with two different branches is outside 'consecutive CSeq numbers': at least one copy must be shown at the release step, further copies are accepted",
             "same-branch retransmissions arrive within 64*T1 of the original (the server transaction still exists)",
-            "after the taking usage's guard is dropped the in-order stream is observed through the stack's non-2xx default answers on the wire",
+            "after the taking usage's guard is dropped the in-order stream is observed through the non-2xx default answers the stack hands to the transport (sent, or refused by the send-fault plan)",
             "UAC role: the first in-dialog request that arrives defines the expected number (RFC 3261 sec. 12.2.2 empty remote sequence number)",
             "a request counts as offered to a usage at the moment Usage::receive is entered; back-to-back arrivals reach the dialog layer in injection order (single-threaded cooperative schedule, FIFO task queue)",
             "a usage has stopped receiving when its guard's drop has returned: an entry into its receive after that instant (one counter numbers entries and drops) is a violation, whoever dropped the guard - the application between two requests, the usage itself, or another usage of the dialog that is handling the very same request",
             "usages are offered a request in registration order (no usage is registered after a guard was dropped, so the usage table is never re-filled out of order); only the last registered usage takes requests, nothing is asserted about usages behind one that took the request",
+            "the requests of one released list are offered one after the other, the next one when the previous one is done (taken by a usage, or answered by the stack's default handling): behind a re-INVITE nobody took whose 404 the peer never ACKs the rest of the list is expected only when the INVITE server transaction has given up (64*T1 on the retransmission raster = 35.5 s, observed in the late step after the script); no list is released while another one is stuck like that (generator restriction: such a script gets a peer that ACKs)",
+            "a failed default answer (transport refuses the send / no ACK) is the peer's and the transport's business: it changes nothing about which requests are offered to which usage",
+            "re-INVITEs and requests whose answer the transport refuses arrive at most once (their server transaction does not outlive the answer, a copy would be a new request with a CSeq not above the last one handed on)",
             "a guard drop inside receive is tied to a request that arrives exactly once and that the reference model hands on; scripts with such drops have no back-to-back arrivals (the interleaving of overlapping deliveries is the recorded open finding)",
         ],
-        explanation: "permutations: every arrival order of n consecutive requests, n<=4 (thorough: n<=5 both roles, n=6 UAS) x both roles x start in {1, crossing 2^31, last=u32::MAX}, plus INVITE CSeq = u32::MAX; guard_drop: every permutation n<=3 (thorough 4) x every drop position x observer x roles; concurrent: every permutation n<=3 (thorough 4) arriving back to back in one or two bursts with a usage that yields; self_drop: every permutation n<=3 (thorough 4) x the taking usage ends itself on each request; usage_drop: rosters {L, LL, LT, LLL, LLT} x every (actor, target) pair x early/late x every permutation n<=3 (thorough 4) x every request the drop can be tied to x both roles, plus every position of an application-side drop of each looking usage's guard; random: sampled scripts with duplicates, near-misses, gaps left open, ACKs, guard drop of any usage, bursts, rosters, one or two in-receive drops",
+        explanation: "permutations: every arrival order of n consecutive requests, n<=4 (thorough: n<=5 both roles, n=6 UAS) x both roles x start in {1, crossing 2^31, last=u32::MAX}, plus INVITE CSeq = u32::MAX; guard_drop: every permutation n<=3 (thorough 4) x every drop position x observer x roles; concurrent: every permutation n<=3 (thorough 4) arriving back to back in one or two bursts with a usage that yields; self_drop: every permutation n<=3 (thorough 4) x the taking usage ends itself on each request; usage_drop: rosters {L, LL, LT, LLL, LLT} x every (actor, target) pair x early/late x every permutation n<=3 (thorough 4) x every request the drop can be tied to x both roles, plus every position of an application-side drop of each looking usage's guard; unwanted: every permutation n=2..3 (thorough 4) x both roles x who is left {L, LL, nobody (taker ended), L (taker behind it ended)} x every request j x {answer to j refused by the transport, j = re-INVITE never ACKed, j = re-INVITE ACKed at once, j = re-INVITE and answer refused}; random: sampled scripts with duplicates, near-misses, gaps left open, ACKs, guard drop of any usage, bursts, rosters, one or two in-receive drops, one case in four with a re-INVITE (ACKed / never ACKed), one in four with one or two refused answers (three in four of those with a roster of looking usages only)",
         subs: vec![
             enum_sub("permutations", perm_cases, check),
             enum_sub("guard_drop", drop_cases, check),
             enum_sub("concurrent", concurrent_cases, check),
             enum_sub("self_drop", self_drop_cases, check),
             enum_sub("usage_drop", usage_drop_cases, check),
+            enum_sub("unwanted", unwanted_cases, check),
             prop_sub("random", strategy, 3000, 40000, check),
         ],
     }
